@@ -2,11 +2,32 @@
 package sim
 
 import (
+	"verif/sim/engine"
 	"verif/sim/mods/amm"
+	farmmod "verif/sim/mods/farm"
+	htlcmod "verif/sim/mods/htlc"
+	mtmod "verif/sim/mods/mt"
+	nftmod "verif/sim/mods/nft"
+	recordmod "verif/sim/mods/record"
 	"verif/sim/mods/sys"
+	tokenmod "verif/sim/mods/token"
 )
 
 func init() {
 	amm.Register()
+	farmmod.Register()
+	htlcmod.Register()
+	nftmod.Register()
+	mtmod.Register()
+	recordmod.Register()
+	tokenmod.Register()
+	sys.Workloads = append(sys.Workloads,
+		func() engine.Module { return farmmod.New() },
+		func() engine.Module { return htlcmod.New() },
+		func() engine.Module { return nftmod.New() },
+		func() engine.Module { return mtmod.New() },
+		func() engine.Module { return recordmod.New() },
+		func() engine.Module { return tokenmod.New() },
+	)
 	sys.Register()
 }
